@@ -105,3 +105,84 @@ Lemma spec_outermost a outer inner :
   attr_lookup a (outer ++ inner) =
   match attr_lookup a outer with Some x => Some x | None => attr_lookup a inner end.
 Proof. unfold attr_lookup. apply find_app. Qed.
+
+(* ------------------------------------------------------------------ apply_args_leaf *)
+(* bridge between the model's order and the specification's order at a leaf: the model applies the
+   arguments in list order by setattr (the last one naming an attribute wins); the specification looks
+   the attribute up in the entries outermost first (the first match wins).  For attribute arguments
+   `a = e` — what reaches an elementary symbol in dotted/canonical spelling — the two agree when the
+   specification's entries are the model's list reversed. *)
+Definition simple_arg (m : marg) : Prop := exists s a e ms, m = MArg s [a] (MExpr e :: ms) /\ a <> aValue.
+
+Definition attr_pred (a : ident) (en : mentry) : bool :=
+  match en with (p, _, _) => path_eqb p [a] || (Pos.eqb a aValue && path_eqb p []) end.
+Definition entry_expr (en : mentry) : expr := snd (fst en).
+
+Lemma attr_lookup_find a ms : attr_lookup a ms = find (attr_pred a) ms.
+Proof. reflexivity. Qed.
+
+Definition entry_of (env : option path) (m : marg) : mentry :=
+  match m with MArg _ t (MExpr e :: _) => (t, e, env) | MArg _ t _ => (t, ENum 0, env) end.
+
+Definition simple_arg1 (m : marg) : Prop := exists s a e, m = MArg s [a] [MExpr e].
+
+Lemma flat_arg_simple env m : simple_arg1 m -> flat_arg env m = [entry_of env m].
+Proof. intros [s [a [e ->]]]. reflexivity. Qed.
+
+Lemma flat_args_simple env l : Forall simple_arg1 l -> flat_args env l = map (entry_of env) l.
+Proof.
+  induction 1 as [|m l Hm Hl IH]; [reflexivity|].
+  unfold flat_args in *. cbn [flat_map map]. rewrite (flat_arg_simple env m Hm), IH. reflexivity.
+Qed.
+
+Lemma last_for_find env a : forall l,
+  Forall simple_arg1 l ->
+  last_for a l = option_map entry_expr (find (attr_pred a) (rev (map (entry_of env) l))).
+Proof.
+  induction 1 as [|m l Hm Hl IH]; [reflexivity|].
+  cbn [last_for map rev]. rewrite find_app, IH.
+  destruct (find (attr_pred a) (rev (map (entry_of env) l))) as [en|]; [reflexivity|].
+  destruct Hm as [s [a' [e ->]]].
+  cbn [option_map find m_target m_mods head_id entry_of attr_pred path_eqb entry_expr].
+  rewrite andb_true_r, andb_false_r, orb_false_r.
+  destruct (Pos.eqb a' a); reflexivity.
+Qed.
+
+(* the attributes modify_symbol leaves on a symbol = the specification's lookup in the reversed entries *)
+Lemma apply_args_leaf env a l r :
+  Forall simple_arg1 l -> apply_args l [] = Ok r ->
+  get_attr a r = option_map entry_expr (attr_lookup a (rev (flat_args env l))).
+Proof.
+  intros Hs H. rewrite (apply_args_last a l [] r H), (flat_args_simple env l Hs), attr_lookup_find.
+  rewrite <- (last_for_find env a l Hs). destruct (last_for a l); reflexivity.
+Qed.
+
+(* ------------------------------------------------------------------ one-level shift = sub-modifiers *)
+Lemma flat_map_flat_map {A B C} (f : B -> list C) (g : A -> list B) l :
+  flat_map f (flat_map g l) = flat_map (fun x => flat_map f (g x)) l.
+Proof. induction l as [|x l IH]; simpl; [reflexivity|]. rewrite flat_map_app, IH. reflexivity. Qed.
+
+Lemma flat_map_singleton {A B} (h : A -> B) l : flat_map (fun x => [h x]) l = map h l.
+Proof. induction l as [|x l IH]; simpl; [reflexivity | rewrite IH; reflexivity]. Qed.
+
+(* the model moves a dotted argument n.m.rest(ms) to component n by dropping the first name
+   (tree.py:542); the specification takes the sub-modifiers of n: the same entries *)
+Lemma sub_mods_shift env sc n m rest ms :
+  sub_mods n (flat_arg env (MArg sc (n :: m :: rest) ms)) = flat_arg env (MArg sc (m :: rest) ms).
+Proof.
+  cbn [flat_arg]. unfold sub_mods. rewrite flat_map_flat_map. apply flat_map_ext. intros [e|l].
+  - cbn [flat_map app]. rewrite Pos.eqb_refl. reflexivity.
+  - rewrite flat_map_concat_map, map_map. rewrite <- flat_map_concat_map.
+    rewrite <- flat_map_singleton. apply flat_map_ext. intros [[p e] w].
+    cbn [app]. rewrite Pos.eqb_refl. reflexivity.
+Qed.
+
+Lemma sub_mods_other env sc n h t ms :
+  Pos.eqb h n = false -> sub_mods n (flat_arg env (MArg sc (h :: t) ms)) = [].
+Proof.
+  intros N. cbn [flat_arg]. unfold sub_mods. rewrite flat_map_flat_map.
+  induction ms as [|[e|l] ms IH]; [reflexivity| |]; cbn [flat_map]; rewrite IH, app_nil_r.
+  - cbn [flat_map app]. rewrite N. reflexivity.
+  - induction (flat_map (flat_arg env) l) as [|[[p e] w] X IHX]; [reflexivity|].
+    cbn [map flat_map app]. rewrite N. exact IHX.
+Qed.
